@@ -65,6 +65,10 @@ CHECKS = {
    technique=TECH + "replica groups: instances of the same kind and length fed related streams (affine image, constant, sum of two streams, impulse) on fault-feed inputs; algebraic relations between the replicas' outputs checked per step with the tracked allowance; impulse responses compared with closed-form documented weight profiles (reduced fit: metamorphic relations between runs, no schedule)",
    text="All 15 MA kinds of the MA constructor plus Conv and VWMA; five laws; a and b from a fixed set incl. negative a; flat-after-volatile regimes enabled; the impulse response is stratified over every length 1..=254 (thorough, complete in the length dimension).",
    note="Allowance 2048*u*(n+t)*M (twice the largest frozen drift constant), VWMA with the quotient-of-running-sums scaling. Constant reproduction read as fixed point up to rounding of the documented normalisation; bit-exact reproduction is counted in the evidence."),
+ "C07": dict(level="exploration", design="§4 C07, §3.2",
+   technique=TECH + "long simulated time (quick 2*10^6, thorough 10^7 and 3*10^7 ticks per method) on regime streams with faults far in the past; definitional oracle re-established at late checkpoints by a reference model primed with the last window and told the true history (t, M), allowance linear in t; late-joining fresh real replica primed with the last window must agree with the long-running instance; range monitors at every late step for the ratio indicators named in the anchors",
+   text="31 finite-window/detector methods, 13 recursive methods (free-running recurrence at every step), 10 finite-window indicators (late join) and CMO/MFI/RSI/Parabolic SAR (range monitors at every step). Checkpoints: first 2000 steps, multiples of 2^8 (first 64) and 2^16, PeriodType::MAX +-1, 60/300 seeded late positions, end of run.",
+   note="Replay files carry feed seed + length (sequential generator) instead of 10^7 explicit values. Ratio-of-running-sums indicators are not compared with a fresh replica near their singular points (both sides divide residue there): see DESIGN.md Corrections."),
 }
 NA = {
  "C16": "Action algebra is a total, stateless algebra over a finite domain: no history, state, fault, replica or schedule for a simulator to drive; the fitting technique (exhaustive enumeration) is model checking, which this task excludes (DESIGN.md §5).",
